@@ -18,4 +18,6 @@ def run(P, R, L):
              "(a point lookup probes the filter slot of the block's offset: a mismatch is a false 'not in this file')")
     from .c14 import pair5
     pair5(P, R, L)
+    R.clause("PAIR-13", "every data block written by the table builder gets an index entry carrying its handle; the footer points at (metaindex, index)")
+    K.pair13_block_indexed(P, R, L)
     R.not_decided += ["prefix compression, separators, seek positions, iteration order (computed bytes)"]
